@@ -138,7 +138,8 @@ pub fn babai_reduce_i32(
 
     let bitsize = |itr: IntoIter<i32>| {
         (itr.map(|i| i.abs()).max().unwrap() * 2)
-            .ilog2()
+            .checked_ilog2()
+            .unwrap_or(0)
             .next_multiple_of(8) as usize
     };
     let size = usize::max(
